@@ -232,10 +232,12 @@ def generate_column(pid: str, res, items: list, edges: str, lookups: bool = Fals
         else: todo.append(it)
     lp = {}
     out = run_driver([generate_payload(k, lp.setdefault(id(s), lang_payload(s)), inst_payload(m),
-                                       **{a: b for a, b in x.items() if not a.startswith('_')}) for k, (s, m, im, x) in enumerate(todo)])
+                                       **{a: b for a, b in x.items() if not a.startswith('_')}) for k, (s, m, im, x) in enumerate(todo)], case_limit=60)
     vs = []
     for (spec, inst, im, x), o in zip(todo, out):
         rep = dict({'spec': spec, 'inst': inst}, **x.get('_replay', {}))
+        if 'skipped' in o:
+            res.bump('generated_code_skipped:no answer within the per-case limit'); continue
         if 'error' in o:
             vs.append(driver_error(pid, o['error'], rep)); continue
         g = o['model']
